@@ -162,6 +162,10 @@ func (p *parser) alias() ast.Expression {
 
 	// generic aliases may not be called with typeSensitive = false
 	if funcAlias, ok := mostFitting.alias.(*ast.FuncAlias); ok && ast.IsGeneric(funcAlias.Func) {
+		// the call is bad, but it was a call: skip its tokens instead of parsing them (and all nested
+		// calls in the arguments) a second time as something else, which doubles the work on every level of nesting
+		// (checkAlias might have returned early, so only now p.previous() is the last token of the call)
+		p.skipAlias(mostFitting.alias, start)
 		p.errVal(ddperror.Error{
 			Code:                 ddperror.SEM_ERROR_INSTANTIATING_GENERIC_FUNCTION,
 			Level:                ddperror.LEVEL_ERROR,
@@ -170,12 +174,7 @@ func (p *parser) alias() ast.Expression {
 			File:                 p.module.FileName,
 			WrappedGenericErrors: mostFitting.errs,
 		})
-		// the call is bad, but it was a call: skip its tokens instead of parsing them (and all nested
-		// calls in the arguments) a second time as something else, which doubles the work on every level of nesting
-		err := p.lastError
-		p.skipAlias(mostFitting.alias, start)
-		err.Range = token.NewRange(&p.tokens[start], p.previous())
-		return &ast.BadExpr{Err: err, Tok: p.tokens[start]}
+		return &ast.BadExpr{Err: p.lastError, Tok: p.tokens[start]}
 	}
 
 	args, funcInstantiation, structTypeInstantiation, errs := p.checkAlias(mostFitting.alias, false, start, cached_args)
